@@ -345,28 +345,75 @@ func c13IsValue(want ssa.Value) func(ssa.Value) bool {
 	}
 }
 
-// c13ContainsCall reports whether fn, its closures, or repository functions it calls
-// statically (to the given depth) contain a call satisfying pred.
+// c13ContainsCall reports whether fn, its closures, the methods it turns into method values
+// (a closure rewritten as `x.m`), or repository functions it calls statically (to the given
+// depth) contain a call satisfying pred.
 func c13ContainsCall(fn *ssa.Function, pred func(ssa.CallInstruction) bool, depth int) bool {
-	if fn == nil || fn.Blocks == nil {
+	return c13ContainsCallRec(fn, pred, depth, map[*ssa.Function]bool{})
+}
+
+func c13ContainsCallRec(fn *ssa.Function, pred func(ssa.CallInstruction) bool, depth int, busy map[*ssa.Function]bool) bool {
+	if fn == nil || fn.Blocks == nil || busy[fn] {
 		return false
 	}
+	busy[fn] = true
+	defer delete(busy, fn)
 	for _, f := range eng.WithClosures(fn) {
 		for _, ci := range eng.Calls(f) {
 			if pred(ci) {
 				return true
 			}
 			if depth > 0 {
-				if g := eng.CalleeFn(ci); g != nil && g != fn && g.Pkg != nil && eng.IsRepoPkg(g.Pkg.Pkg.Path()) && c13ContainsCall(g, pred, depth-1) {
+				if g := eng.CalleeFn(ci); g != nil && g != fn && g.Pkg != nil && eng.IsRepoPkg(g.Pkg.Pkg.Path()) && c13ContainsCallRec(g, pred, depth-1, busy) {
 					return true
 				}
+			}
+		}
+		// function values created here other than literals: a bound method value or a named
+		// function of the repository run (if at all) on behalf of fn, like a literal would
+		for _, g := range c13FuncValues(f) {
+			if c13ContainsCallRec(g, pred, depth, busy) {
+				return true
 			}
 		}
 	}
 	return false
 }
 
-// c13ClosureArgs returns the function literals passed as arguments of a call.
+// c13FuncValues returns the repository functions other than function literals whose value is
+// taken in fn: bound method values (`w.tryWrite`) and named functions used as values.
+func c13FuncValues(fn *ssa.Function) []*ssa.Function {
+	var out []*ssa.Function
+	add := func(g *ssa.Function) {
+		if g != nil && g.Blocks != nil && g.Pkg != nil && eng.IsRepoPkg(g.Pkg.Pkg.Path()) {
+			out = append(out, g)
+		}
+	}
+	eng.Instrs(fn, func(ins ssa.Instruction) {
+		if mc, ok := ins.(*ssa.MakeClosure); ok {
+			if f, _ := mc.Fn.(*ssa.Function); f != nil && f.Synthetic != "" {
+				add(c13FuncTarget(mc))
+			}
+			return
+		}
+		var callee ssa.Value
+		if ci, ok := ins.(ssa.CallInstruction); ok {
+			callee = ci.Common().Value
+		}
+		for _, op := range ins.Operands(nil) {
+			if *op == nil || *op == callee {
+				continue
+			}
+			if g, ok := (*op).(*ssa.Function); ok && g.Synthetic == "" {
+				add(g)
+			}
+		}
+	})
+	return out
+}
+
+// c13ClosureArgs returns the functions passed as arguments of a call: function literals,
+// bound method values (resolved to the method) and named repository functions.
 func c13ClosureArgs(ci ssa.CallInstruction) []*ssa.Function {
 	var out []*ssa.Function
 	for _, a := range ci.Common().Args {
@@ -377,9 +424,14 @@ func c13ClosureArgs(ci ssa.CallInstruction) []*ssa.Function {
 			}
 			break
 		}
-		if mc, ok := a.(*ssa.MakeClosure); ok {
-			if fn, ok := mc.Fn.(*ssa.Function); ok {
+		switch x := a.(type) {
+		case *ssa.MakeClosure:
+			if fn := c13FuncTarget(x); fn != nil {
 				out = append(out, fn)
+			}
+		case *ssa.Function:
+			if x.Blocks != nil && x.Pkg != nil && eng.IsRepoPkg(x.Pkg.Pkg.Path()) {
+				out = append(out, x)
 			}
 		}
 	}
@@ -637,6 +689,10 @@ func c13StoreSources(v ssa.Value, gls *ssa.Function, depth int) ([]c13Src, bool)
 		// one result of a helper returning (store, error)
 		r, idx = ex.Tuple, ex.Index
 	}
+	if key, isLk := c13StoreLookup(r); isLk && idx == 0 {
+		// the accessor written in place: limitStoreMap[id]
+		return c13ShardSources(key, depth)
+	}
 	call, ok := r.(*ssa.Call)
 	if !ok {
 		return nil, false
@@ -645,8 +701,13 @@ func c13StoreSources(v ssa.Value, gls *ssa.Function, depth int) ([]c13Src, bool)
 	if callee == nil {
 		return nil, false
 	}
-	if callee == gls {
-		return c13ShardSources(eng.Args(call)[0], depth)
+	if gls != nil && callee == gls {
+		for i, p := range gls.Params {
+			if p.Type().Underlying() == types.Typ[types.Int] && i < len(call.Call.Args) {
+				return c13ShardSources(call.Call.Args[i], depth)
+			}
+		}
+		return nil, false
 	}
 	if depth <= 0 || callee.Blocks == nil || callee.Pkg == nil || !eng.IsRepoPkg(callee.Pkg.Pkg.Path()) {
 		return nil, false
@@ -701,7 +762,7 @@ func c13(c *eng.Ctx) {
 	c.Rule("R1", "util.GetShardID is a pure function of (name, count): it and its callees read no package-level variable and call nothing but hash/fnv and builtins; its result is int(h % uint32(count)) with the count parameter itself as modulus and h = FNV-1a over exactly the name bytes, hence in [0,count) for count >= 1. Otherwise two processes (gateway, limiter) or two calls can map one upstream to different shards, or to a shard nobody leads", 3)
 	c.Rule("R2", "single definition of the shard id: every id that reaches IsLeader, getLimitStoreForShard, the k8s store's shard comparison or the gateway's leader tables is computed by GetShardID(name, count); count is the configured ShardingCount on the server (limiter, elector, stores) and the server-reported ShardCount (guarded != 0) on the gateway, and ServerInfo reports that same field; a shard's store is registered under its own id. A second definition (other hash, other modulus) makes the gateway address a server that refuses, or two servers serve one upstream", 30)
 	c.Rule("R3", "leader guard with key agreement: in UpdateRateLimitConditionStatus, DoAcquire, UpstreamConditionHandler and deleteCondition every store mutation (Save/Delete/DeleteUpstream/SyncFlowControl, SetState/TryAcquireN) executes only on the IsLeader(GetShardID(u, n)) == true edge with u the upstream name the mutation is keyed by, on the store selected by that same shard id; the two serving calls answer the non-leader edge with an error naming the leader. Otherwise a non-leader changes quota/acquire state of an upstream another server owns", 17)
-	c.Rule("R4", "losing a shard discards its state: the OnStoppedLeading callback removes limitStoreMap[shard] on every path and before the store is stopped; the k8s store refuses to save and skips loading conditions whose upstream hashes to another shard", 10)
+	c.Rule("R4", "losing a shard discards its state: the OnStoppedLeading callback removes limitStoreMap[shard] on every path and before the store is stopped; a store is deleted from the map only together with being stopped (the stopped store is the mapped one, or the removal is conditional on it being mapped); the k8s store refuses to save and skips loading conditions whose upstream hashes to another shard", 10)
 
 	c13R1(c)
 	c13R2(c)
@@ -919,6 +980,118 @@ func c13Dedup(in []string) []string {
 	return out
 }
 
+// c13AllUp: v satisfies pred, or v is (an alias of) a parameter of a helper whose callers are all
+// known and the operand bound to it satisfies c13AllUp at every call site.
+func c13AllUp(w *eng.World, v ssa.Value, depth int, pred func(ssa.Value) bool) bool {
+	if pred(v) {
+		return true
+	}
+	a, ok := c13Alias(v)
+	if !ok {
+		return false
+	}
+	if a != v && pred(a) {
+		return true
+	}
+	p, isP := a.(*ssa.Parameter)
+	if !isP || depth <= 0 {
+		return false
+	}
+	ups := w.UpArgSites(p)
+	if len(ups) == 0 {
+		return false
+	}
+	for _, u := range ups {
+		if !c13AllUp(w, u.Arg, depth-1, pred) {
+			return false
+		}
+	}
+	return true
+}
+
+// c13Anchor resolves an anchor function by name (typ "" for a package-level function) and —
+// when a refactoring renamed it or turned a method into a function — by what it does: the
+// single top-level function of the package for which role holds. Only when nothing fulfils the
+// role is the anchor reported as unresolved.
+func c13Anchor(c *eng.Ctx, pkg, typ, name string, role func(fn *ssa.Function) bool) *ssa.Function {
+	var f *ssa.Function
+	if typ == "" {
+		f = c.W.Func(pkg, name)
+	} else {
+		f = c.W.Method(pkg, typ, name)
+	}
+	if f != nil && f.Blocks != nil {
+		return f
+	}
+	var cands []*ssa.Function
+	if role != nil {
+		for _, fn := range c.W.FuncsOf(pkg) {
+			if fn.Parent() == nil && fn.Blocks != nil && fn.Synthetic == "" && role(fn) {
+				cands = append(cands, fn)
+			}
+		}
+	}
+	if len(cands) == 1 {
+		return cands[0]
+	}
+	what := "func " + pkg + "." + name
+	if typ != "" {
+		what = "method (" + pkg + "." + typ + ")." + name
+	}
+	c.Fail("engine", nil, "unresolved-anchor "+what, 0, fmt.Sprintf("anchor not found by name, and %d functions of the package fulfil its role", len(cands)))
+	return nil
+}
+
+// c13IsStoreLookup: v reads the shard → store table of the limiter under key (also as the value
+// of a comma-ok lookup).
+func c13StoreLookup(v ssa.Value) (key ssa.Value, ok bool) {
+	if e, isE := v.(*ssa.Extract); isE && e.Index == 0 {
+		v = e.Tuple
+	}
+	lk, isL := v.(*ssa.Lookup)
+	if !isL || !eng.FieldLoadOf(lk.X, c13TRateLimiter, "limitStoreMap") {
+		return nil, false
+	}
+	return lk.Index, true
+}
+
+// c13StoreSelector resolves the accessor of the shard → store table (getLimitStoreForShard):
+// by name, or the function every result of which is limitStoreMap[its own parameter]. nil
+// (without a failure) when the accessor was inlined: the lookups themselves are the selection.
+func c13StoreSelector(c *eng.Ctx) *ssa.Function {
+	if f := c.W.Method(pkgLimiter, "rateLimiter", "getLimitStoreForShard"); f != nil && f.Blocks != nil {
+		return f
+	}
+	var found *ssa.Function
+	for _, fn := range c.W.FuncsOf(pkgLimiter) {
+		if fn.Parent() != nil || fn.Signature.Results().Len() != 1 {
+			continue
+		}
+		n, all := 0, true
+		eng.Instrs(fn, func(ins ssa.Instruction) {
+			ret, ok := ins.(*ssa.Return)
+			if !ok || ret.Block() == fn.Recover {
+				return
+			}
+			n++
+			rv, _ := c13Alias(c13Returned(ret, 0))
+			key, isLk := c13StoreLookup(rv)
+			if isLk {
+				k, _ := c13Alias(key)
+				p, isP := k.(*ssa.Parameter)
+				isLk = isP && p.Parent() == fn
+			}
+			if !isLk {
+				all = false
+			}
+		})
+		if n > 0 && all && found == nil {
+			found = fn
+		}
+	}
+	return found
+}
+
 // ---- R2 ---------------------------------------------------------------------------------
 
 // c13ClientSetsImpls returns the named types implementing clientsets.ClientSets.
@@ -976,7 +1149,7 @@ func c13R2(c *eng.Ctx) {
 	}
 
 	// (a) IsLeader(id) and (b) getLimitStoreForShard(id), anywhere in the repository
-	gls := c.MustMethod(pkgLimiter, "rateLimiter", "getLimitStoreForShard")
+	gls := c13StoreSelector(c)
 	nLeader, nStore := 0, 0
 	for _, fn := range c.W.AllRepoFuncs() {
 		ord := map[string]int{}
@@ -995,6 +1168,19 @@ func c13R2(c *eng.Ctx) {
 	}
 	if nLeader == 0 {
 		c.Fail("R2", nil, "IsLeader(shard) sites", 0, "no call of LeaderElector.IsLeader found")
+	}
+	if gls == nil {
+		// the accessor was inlined: the lookups of the table are the selection sites; those feeding
+		// a mutation are tied to the guarded shard by R3 (c13StoreSources)
+		for _, fn := range c.W.FuncsOf(pkgLimiter) {
+			eng.Instrs(fn, func(ins ssa.Instruction) {
+				if v, ok := ins.(ssa.Value); ok {
+					if _, isLk := c13StoreLookup(v); isLk {
+						nStore++
+					}
+				}
+			})
+		}
 	}
 	if nStore == 0 {
 		c.Fail("R2", nil, "getLimitStoreForShard(shard) sites", 0, "no call of getLimitStoreForShard found")
@@ -1150,12 +1336,17 @@ func c13R2(c *eng.Ctx) {
 			nSites++
 			k++
 			a := eng.Args(ci)
-			ok := false
-			for t := range countFields {
-				if len(a) == 2 && eng.FieldLoadOf(a[1], t, "shardCount") {
-					ok = true
+			// the count operand is the field itself, or — in a function that is handed the count by
+			// its callers (a method turned into a function taking the fields it needs) — a parameter
+			// every call site binds to the field
+			ok := len(a) == 2 && c13AllUp(c.W, a[1], eng.LiftDepth, func(v ssa.Value) bool {
+				for t := range countFields {
+					if eng.FieldLoadOf(v, t, "shardCount") {
+						return true
+					}
 				}
-			}
+				return false
+			})
 			c.Check("R2", fn, fmt.Sprintf("GetShardID#%d count = the component's shardCount field", k), ci.Pos(), ok, "the modulus must be the one configured/synced shard count, not a literal or a derived number")
 		}
 	}
@@ -1785,18 +1976,41 @@ func c13R3(c *eng.Ctx) {
 		c.Fail("engine", nil, "unresolved-anchor interfaces LimitStore/GlobalFlowControl/RateLimiter", 0, "not found")
 		return
 	}
-	gls := c.MustMethod(pkgLimiter, "rateLimiter", "getLimitStoreForShard")
+	gls := c13StoreSelector(c)
 	isStoreMut := func(ci ssa.CallInstruction) bool {
 		return c13IfaceCall(ci, storeIface, "Save", "Delete", "DeleteUpstream", "SyncFlowControl")
 	}
 	isFCMut := func(ci ssa.CallInstruction) bool { return c13IfaceCall(ci, fcIfaceG, "SetState", "TryAcquireN") }
 	cache := map[string]*c13Agreement{}
 
+	var entries []*ssa.Function
 	for _, name := range []string{"UpdateRateLimitConditionStatus", "DoAcquire", "UpstreamConditionHandler", "deleteCondition"} {
-		entry := c.MustMethod(pkgLimiter, "rateLimiter", name)
+		var role func(fn *ssa.Function) bool
+		if name == "deleteCondition" {
+			// the internal entry point of the cleanup passes, whatever it is called and whether it is
+			// a method or a function handed the elector and the count: the function that removes one
+			// condition from a store it is given
+			role = func(fn *ssa.Function) bool {
+				for _, e := range entries {
+					if e == fn {
+						return false
+					}
+				}
+				for _, ci := range eng.Calls(fn) {
+					if c13IfaceCall(ci, storeIface, "Delete") {
+						if _, isP := eng.Receiver(ci).(*ssa.Parameter); isP {
+							return true
+						}
+					}
+				}
+				return false
+			}
+		}
+		entry := c13Anchor(c, pkgLimiter, "rateLimiter", name, role)
 		if entry == nil {
 			continue
 		}
+		entries = append(entries, entry)
 		sameName := func(guard, key c13Ref) bool {
 			if guard == key {
 				return true
@@ -1838,35 +2052,50 @@ func c13R3(c *eng.Ctx) {
 				mname := eng.CalleeObj(ci).Name()
 				label := fmt.Sprintf("%s#%d", mname, c13Ordinal(ord, mname))
 
-				// the upstream name(s) the mutation is keyed by, and the store it goes to
-				var keys []c13Ref
-				var storeVal ssa.Value
-				if isStoreMut(ci) {
-					keys = append(keys, c13RefOf(eng.Args(ci)[0]))
-					storeVal = eng.Receiver(ci)
-				} else {
-					r, _ := c13Alias(eng.Receiver(ci))
+				// the upstream name(s) the mutation is keyed by, and the store it goes to — decided per
+				// chain: a flow control handed to an extracted helper is looked up by the caller, so
+				// the receiver is first resolved through the arguments of the chain's call sites
+				chains := c13Chains(ci, entry, eng.LiftDepth)
+				type keyed struct {
+					keys     []c13Ref  // stated in the context of the outermost level
+					storeVal ssa.Value // the store, a value of the function of chain[storeLvl]
+					storeLvl int
+				}
+				keysOf := func(chain []c13Level) (keyed, bool) {
+					if isStoreMut(ci) {
+						return keyed{[]c13Ref{c13LiftRef(chain, 0, c13RefOf(eng.Args(ci)[0]))}, eng.Receiver(ci), 0}, true
+					}
+					r, _ := c13Alias(c13LiftValue(chain, eng.Receiver(ci)))
 					gf, idx := eng.CallResultOf(r)
-					if gf != nil && idx == 0 && c13IfaceCall(gf, storeIface, "GetFlowControl") {
-						keys = append(keys, c13RefOf(eng.Args(gf)[0]))
-						storeVal = eng.Receiver(gf)
+					if gf == nil || idx != 0 || !c13IfaceCall(gf, storeIface, "GetFlowControl") {
+						return keyed{}, false
+					}
+					lvl := 0
+					for k, lv := range chain {
+						if lv.at.Parent() == gf.Parent() {
+							lvl = k
+						}
+					}
+					return keyed{[]c13Ref{c13LiftRef(chain, lvl, c13RefOf(eng.Args(gf)[0]))}, eng.Receiver(gf), lvl}, true
+				}
+				undecided := false
+				for _, chain := range chains {
+					if _, ok := keysOf(chain); !ok {
+						undecided = true
 					}
 				}
-				if len(keys) == 0 {
+				if undecided {
 					c.Undecided("R3", fn, label+" on the IsLeader(shard(key)) edge", ci.Pos(), "cannot tell which upstream the flow control belongs to (it is not the result of LimitStore.GetFlowControl(upstream, …))")
 					continue
 				}
 
-				chains := c13Chains(ci, entry, eng.LiftDepth)
 				ok := len(chains) > 0
 				why := "the mutation must be control-dependent on IsLeader(GetShardID(u, n)) == true with u the upstream it is keyed by; otherwise a server that does not lead u's shard changes u's quota/acquire state"
 				sok, swhy := len(chains) > 0, "the store receiving the mutation must be getLimitStoreForShard(id) of the id the leader guard tested"
 				for _, chain := range chains {
 					// keys and guards, both stated in the context of the outermost level
-					var lkeys []c13Ref
-					for _, k := range keys {
-						lkeys = append(lkeys, c13LiftRef(chain, 0, k))
-					}
+					kd, _ := keysOf(chain)
+					lkeys, storeVal := kd.keys, kd.storeVal
 					matched := false
 					var guardSrcs []c13Src
 					gs := c13ChainGuards(chain, depth)
@@ -1894,7 +2123,7 @@ func c13R3(c *eng.Ctx) {
 					}
 
 					// the store is the one of the guarded shard (or handed in by the caller together with the condition)
-					sr, isAlias := c13Alias(c13LiftValue(chain, storeVal))
+					sr, isAlias := c13Alias(c13LiftValue(chain[kd.storeLvl:], storeVal))
 					thisOK := false
 					if isAlias {
 						switch x := sr.(type) {
@@ -2022,7 +2251,6 @@ func c13R4(c *eng.Ctx) {
 		c.Fail("engine", nil, "unresolved-anchor interface LimitStore", 0, "not found")
 		return
 	}
-	sl := c.Slicer()
 	isStop := func(ci ssa.CallInstruction) bool { return c13IfaceCall(ci, storeIface, "Stop") }
 
 	// the function wired as OnStoppedLeading
@@ -2038,50 +2266,91 @@ func c13R4(c *eng.Ctx) {
 		}
 		c.Pass("R4", st.Parent(), fmt.Sprintf("OnStoppedLeading callback wired#%d", k+1), st.Pos(), "→ "+eng.FuncName(stopFn))
 		shard := ssa.Value(stopFn.Params[len(stopFn.Params)-1])
-		isDelete := func(ins ssa.Instruction) bool {
+		// isShard: v, a value of a function entered through env (nil: stopFn itself), denotes the
+		// callback's shard parameter
+		isShard := func(v ssa.Value, env *eng.CallEnv) bool {
+			for i := 0; i < 4; i++ {
+				a, ok := c13Alias(v)
+				if !ok {
+					return false
+				}
+				if a == shard {
+					return true
+				}
+				r := eng.ResolveEnv(a, env)
+				if r.V == a && r.Env == env {
+					return false
+				}
+				v, env = r.V, r.Env
+			}
+			return false
+		}
+		// the removal, written in place or in a helper called on every path (the helper's key is
+		// resolved through the arguments of the call)
+		delPred := func(ins ssa.Instruction, env *eng.CallEnv) bool {
 			call, ok := ins.(*ssa.Call)
 			if !ok || !c13IsBuiltin(call, "delete") || len(call.Call.Args) != 2 {
 				return false
 			}
-			key, _ := c13Alias(call.Call.Args[1])
-			return eng.FieldLoadOf(call.Call.Args[0], c13TRateLimiter, "limitStoreMap") && key == shard
+			return eng.FieldLoadOf(call.Call.Args[0], c13TRateLimiter, "limitStoreMap") && isShard(call.Call.Args[1], env)
 		}
+		isDelete := eng.MustIn(delPred)
 		leak := eng.ReachFromEntry(stopFn, eng.PathQuery{Target: eng.IsExit, Avoid: isDelete})
 		c.Check("R4", stopFn, "delete(limitStoreMap, shard) on every path", stopFn.Pos(), leak == nil,
 			"after leadership of a shard is lost its store must leave the map on every path; otherwise requests keep being served from stale in-memory state once leadership returns")
+		anyMapDelete := func(ci ssa.CallInstruction) bool {
+			return c13IsBuiltin(ci, "delete") && len(ci.Common().Args) == 2 && eng.FieldLoadOf(ci.Common().Args[0], c13TRateLimiter, "limitStoreMap")
+		}
 		n := 0
-		for _, ci := range eng.Calls(stopFn) {
-			if !c13Performs(ci, isStop, 1) {
-				continue
-			}
-			n++
-			before := eng.AlwaysBefore(stopFn, ci, isDelete)
-			// the store that is stopped is the one registered for this shard
-			var stopped ssa.Value
-			if isStop(ci) {
-				stopped = eng.Receiver(ci)
-			} else {
-				for _, a := range ci.Common().Args {
-					if c13Implements(a.Type(), storeIface) {
-						stopped = a
+		// stops(fn, env, removed): the calls of fn that stop a store; removed: the entry is already
+		// deleted whenever fn is entered. A helper that both removes the entry and stops the store
+		// is looked into (the order is decided inside it).
+		var stops func(fn *ssa.Function, env *eng.CallEnv, removed bool, depth int)
+		stops = func(fn *ssa.Function, env *eng.CallEnv, removed bool, depth int) {
+			isDel := eng.MustInFrom(env, delPred)
+			for _, ci := range eng.Calls(fn) {
+				if !c13Performs(ci, isStop, 2) {
+					continue
+				}
+				before := removed || eng.AlwaysBefore(fn, ci, isDel)
+				if call, isCall := ci.(*ssa.Call); isCall && !isStop(ci) && depth > 0 {
+					if g := eng.CalleeFn(ci); g != nil && g.Blocks != nil && c13ContainsCall(g, anyMapDelete, 1) {
+						stops(g, &eng.CallEnv{Call: call, Callee: g, Parent: env}, before, depth-1)
+						continue
 					}
 				}
-			}
-			own := stopped != nil && sl.DerivesFrom(stopped, func(v ssa.Value) bool {
-				lk, ok := v.(*ssa.Lookup)
-				if !ok {
-					return false
+				n++
+				// the store that is stopped is the one registered for this shard
+				var stopped ssa.Value
+				if isStop(ci) {
+					stopped = eng.Receiver(ci)
+				} else {
+					for _, a := range ci.Common().Args {
+						if c13Implements(a.Type(), storeIface) {
+							stopped = a
+						}
+					}
 				}
-				key, _ := c13Alias(lk.Index)
-				return eng.FieldLoadOf(lk.X, c13TRateLimiter, "limitStoreMap") && key == shard
-			})
-			c.Check("R4", stopFn, fmt.Sprintf("store removed from the map before it is stopped#%d", n), ci.Pos(), before && own,
-				"Stop (flush + close) of limitStoreMap[shard] must come after the entry is deleted: while it is still in the map, requests mutate a store that is being flushed/stopped")
+				own := false
+				if stopped != nil {
+					eng.WalkDefs(stopped, env, func(d eng.EnvValue, _ []eng.Via) bool {
+						if lk, ok := d.V.(*ssa.Lookup); ok && eng.FieldLoadOf(lk.X, c13TRateLimiter, "limitStoreMap") && isShard(lk.Index, d.Env) {
+							own = true
+						}
+						return !own
+					})
+				}
+				c.Check("R4", stopFn, fmt.Sprintf("store removed from the map before it is stopped#%d", n), ci.Pos(), before && own,
+					"Stop (flush + close) of limitStoreMap[shard] must come after the entry is deleted: while it is still in the map, requests mutate a store that is being flushed/stopped")
+			}
 		}
+		stops(stopFn, nil, false, eng.LiftDepth)
 		if n == 0 {
 			c.Fail("R4", stopFn, "store removed from the map before it is stopped", stopFn.Pos(), "the callback never stops the shard's store")
 		}
 	}
+
+	c13RemovedIsStopped(c, storeIface)
 
 	// the elector invokes the callback with the shard it lost
 	n := 0
@@ -2102,6 +2371,170 @@ func c13R4(c *eng.Ctx) {
 	}
 	if n == 0 {
 		c.Fail("R4", nil, "elector invokes OnStoppedLeading(shard)", 0, "the elector never invokes the stopped-leading callback")
+	}
+}
+
+// c13RemovedIsStopped (R4): a store leaves the shard → store table only together with being
+// stopped, and the store that is stopped is the one that left. For every delete(limitStoreMap, k)
+// of the limiter — seen from each function under whose control it runs (the helper holding it
+// may be shared) — some Stop that follows stops either the value that was mapped under k (a
+// lookup under the same key), or a store s with the removal conditional on limitStoreMap[k] == s.
+// Otherwise a healthy store registered meanwhile is dropped from the table without being
+// stopped: it is in no map, nobody can discard it, and (k8s store) its sync loop keeps writing
+// the shard's state after leadership is lost.
+func c13RemovedIsStopped(c *eng.Ctx, storeIface *types.Interface) {
+	isStop := func(ci ssa.CallInstruction) bool { return c13IfaceCall(ci, storeIface, "Stop") }
+	isMap := func(v ssa.Value) bool { return eng.FieldLoadOf(v, c13TRateLimiter, "limitStoreMap") }
+	// sameIn: v, a value of a function entered through env (nil: the anchor), denotes want, a value
+	// of the anchor
+	sameIn := func(v ssa.Value, env *eng.CallEnv, want ssa.Value) bool {
+		for i := 0; i < 4; i++ {
+			a, ok := c13Alias(v)
+			if !ok {
+				return false
+			}
+			if a == want {
+				return true
+			}
+			r := eng.ResolveEnv(a, env)
+			if r.V == a && r.Env == env {
+				return false
+			}
+			v, env = r.V, r.Env
+		}
+		return false
+	}
+	ord := map[*ssa.Function]int{}
+	for _, fn := range c.W.FuncsOf(pkgLimiter) {
+		for _, ci := range eng.Calls(fn) {
+			del, isCall := ci.(*ssa.Call)
+			if !isCall || !c13IsBuiltin(del, "delete") || len(del.Call.Args) != 2 || !isMap(del.Call.Args[0]) {
+				continue
+			}
+			type ctxKey struct {
+				anchor *ssa.Function
+				site   ssa.Instruction
+			}
+			done := map[ctxKey]bool{}
+			// a function literal called in place runs as part of the function that creates it
+			// (capturing literals are not lifted by eng.UpChains)
+			base, baseSite := fn, ssa.Instruction(del)
+			for base.Parent() != nil && len(c.W.UpSites(base)) == 0 {
+				var call ssa.Instruction
+				eng.Instrs(base.Parent(), func(ins ssa.Instruction) {
+					mc, ok := ins.(*ssa.MakeClosure)
+					if !ok || mc.Fn != ssa.Value(base) || mc.Referrers() == nil || len(*mc.Referrers()) != 1 {
+						return
+					}
+					if cc, isCall := (*mc.Referrers())[0].(*ssa.Call); isCall && cc.Call.Value == ssa.Value(mc) {
+						call = cc
+					}
+				})
+				if call == nil {
+					break
+				}
+				base, baseSite = base.Parent(), call
+			}
+			for _, full := range c.W.UpChains(base, nil) {
+				// the anchor: the innermost function on the chain that stops a store (the removal may
+				// sit in a helper shared by several of them)
+				ch := full[:0]
+				for i := 0; i <= len(full); i++ {
+					cand := full[:i]
+					stops := false
+					for _, sc := range eng.Calls(cand.Top(base)) {
+						if c13Performs(sc, isStop, 2) {
+							stops = true
+						}
+					}
+					if stops {
+						ch = cand
+						break
+					}
+				}
+				anchor := ch.Top(base)
+				site := baseSite
+				if len(ch) > 0 {
+					site = ch[len(ch)-1].Call
+				}
+				if done[ctxKey{anchor, site}] {
+					continue
+				}
+				done[ctxKey{anchor, site}] = true
+				// the removed key, stated in the anchor
+				key := del.Call.Args[1]
+				if a, ok := c13Alias(key); ok {
+					key = a
+				}
+				key = ch.Resolve(key)
+				if a, ok := c13Alias(key); ok {
+					key = a
+				}
+				// the store the removal is conditional on: limitStoreMap[k] == s at the delete
+				var condStore []ssa.Value
+				for _, r := range eng.RelsAt(del) {
+					if r.Op != token.EQL {
+						continue
+					}
+					for _, side := range [][2]ssa.Value{{r.X, r.Y}, {r.Y, r.X}} {
+						k, isLk := c13StoreLookup(side[0])
+						if !isLk {
+							continue
+						}
+						ka, _ := c13Alias(k)
+						da, _ := c13Alias(del.Call.Args[1])
+						if ka != nil && ka == da {
+							s := side[1]
+							if a, ok := c13Alias(s); ok {
+								s = a
+							}
+							s = ch.Resolve(s)
+							if a, ok := c13Alias(s); ok {
+								s = a
+							}
+							condStore = append(condStore, s)
+						}
+					}
+				}
+				ok := false
+				for _, sc := range eng.Calls(anchor) {
+					if !c13Performs(sc, isStop, 2) {
+						continue
+					}
+					sc := sc
+					if sc != site && eng.ReachAfter(site, eng.PathQuery{Target: func(i ssa.Instruction) bool { return i == ssa.Instruction(sc) }}) == nil {
+						continue
+					}
+					var stopped ssa.Value
+					if isStop(sc) {
+						stopped = eng.Receiver(sc)
+					} else {
+						for _, a := range sc.Common().Args {
+							if c13Implements(a.Type(), storeIface) {
+								stopped = a
+							}
+						}
+					}
+					if stopped == nil {
+						continue
+					}
+					for _, s := range condStore {
+						if sameIn(stopped, nil, s) {
+							ok = true
+						}
+					}
+					eng.WalkDefs(stopped, nil, func(d eng.EnvValue, _ []eng.Via) bool {
+						if k, isLk := c13StoreLookup(d.V); isLk && sameIn(k, d.Env, key) {
+							ok = true
+						}
+						return !ok
+					})
+				}
+				ord[anchor]++
+				c.Check("R4", anchor, fmt.Sprintf("removed store is the one that is stopped#%d", ord[anchor]), del.Pos(), ok,
+					"an entry is deleted from limitStoreMap although the store stopped afterwards is neither the value mapped under that key nor a store the removal is conditional on (limitStoreMap[k] == s): a store registered meanwhile is dropped without being stopped and keeps running outside the table")
+			}
+		}
 	}
 }
 
@@ -2181,6 +2614,20 @@ func c13ShardFilter(c *eng.Ctx, rule string) {
 		recv, obj := ssa.Value(save.Params[0]), ssa.Value(save.Params[2])
 		own := func(r eng.Rel) bool { return c13OwnShardRel(r, true, recv, obj, depth) }
 		nAPI, nLocal := 0, 0
+		// the in-memory write, in Save or in a helper (all callers known) its tail was moved into:
+		// the own-shard test must hold at the write or at every call that leads to it
+		for _, rf := range c.W.Region(save) {
+			if rf == save {
+				continue
+			}
+			for _, ci := range eng.Calls(rf) {
+				if isLocalSave(ci) {
+					nLocal++
+					c.Check(rule, save, fmt.Sprintf("Save: local write#%d only for the store's own shard", nLocal), ci.Pos(), eng.HoldsAt(ci, own),
+						"the in-memory write must be control-dependent on GetShardID(condition.Spec.UpstreamCluster, shardCount) == shard of the condition being saved; otherwise a store holds (and later flushes/serves) state of a shard its server does not lead")
+				}
+			}
+		}
 		for _, ci := range eng.Calls(save) {
 			switch {
 			case isLocalSave(ci):
